@@ -2,27 +2,16 @@
 
 package playback
 
-import "time"
-
 // Helper definitions of internal/playback (segment_fmp4.go) and their callers:
 //
 //	durationGoToMp4(v time.Duration, timeScale uint32)  muxer_fmp4.go:95, segment_fmp4.go:465,466   ns->ticks
 //	durationMp4ToGo(v int64, timeScale uint32)          segment_fmp4.go:409,515                     ticks->ns
 //
 // The time scale parameter is a uint32, so the stated range 1..2^32 is 1..2^32-1 here (0 is outside the property).
+// Each helper registers itself from its own file (c24_h_*_test.go), so that a tree in which a helper was
+// removed or renamed still lets the driver build the other helpers of the package (optional harness files).
+var c24Registry []c24Helper
+
 func c24Helpers() (string, []c24Helper) {
-	return "internal/playback", []c24Helper{
-		{
-			name:   "playback.durationGoToMp4",
-			fn:     func(v, m, _ int64) int64 { return durationGoToMp4(time.Duration(v), uint32(m)) },
-			shapes: []c24Shape{c24NsToTicks},
-			maxM:   c24MaxRateU,
-		},
-		{
-			name:   "playback.durationMp4ToGo",
-			fn:     func(v, _, d int64) int64 { return int64(durationMp4ToGo(v, uint32(d))) },
-			shapes: []c24Shape{c24TicksToNs},
-			maxD:   c24MaxRateU,
-		},
-	}
+	return "internal/playback", c24Registry
 }
